@@ -197,11 +197,24 @@ def deref(fnode, e, depth=4):
             tg = [(i.optional_vars, None) for i in st.items if i.optional_vars is not None]
         for t, v in tg:
             for x in _ast.walk(t):
-                if isinstance(x, _ast.Name):
+                if isinstance(x, _ast.Name) and isinstance(x.ctx, (_ast.Store, _ast.Del)):
                     if x.id in defs or v is None or t is not x:
                         multi.add(x.id)
                     defs[x.id] = v
-    ok = {k: v for k, v in defs.items() if k not in multi and k not in params and v is not None}
+    def container(v):
+        # a name bound to a fresh mutable container stands for the object that is
+        # mutated afterwards, not for the literal it was created from
+        if isinstance(v, (_ast.Dict, _ast.List, _ast.Set)):
+            return True
+        if isinstance(v, _ast.Call):
+            from .pyrepo import dotted
+            nm = (dotted(v.func) or "").split(".")[-1]
+            if nm in ("defaultdict", "OrderedDict", "deque", "bytearray"):
+                return True
+            return nm in ("dict", "list", "set") and not v.args and not v.keywords
+        return False
+    ok = {k: v for k, v in defs.items() if k not in multi and k not in params and v is not None
+          and not container(v)}
 
     class R(_ast.NodeTransformer):
         def __init__(self, d):
